@@ -28,10 +28,12 @@ for entry, T in (("VP_C06_Server", T_S), ("VP_C06_Client", T_C)):
     # (two arbitrary status-code digits on the client cost ~270 s each: thorough tier only)
     heavy = [{"hole": h} for h in (9, 10, 81, 82, 83, 84)] if entry == "VP_C06_Client" else []
     I(entry, {"variant": 0, "sym": 2, "mode": 0, "seg": 1}, grid_range={"hole": [0, first + 20]}, tiers=("quick",), skip=heavy)
-    I(entry, {"variant": 0, "sym": 2, "mode": 0, "seg": 3}, grid_range={"hole": [0, L0 - 2]}, tiers=("thorough",))
-    I(entry, {"variant": 1, "sym": 2, "mode": 0, "seg": 1}, grid_range={"hole": [0, len(T[1]) - 2]}, tiers=("thorough",))
-    I(entry, {"variant": 0, "sym": 2, "mode": 1, "seg": 1}, grid_range={"hole": [0, L0]}, tiers=("thorough",))
-    I(entry, {"variant": 0, "sym": 3, "mode": 0, "seg": 1}, grid_range={"hole": [0, 30]}, tiers=("thorough",))
+    I(entry, {"variant": 0, "sym": 2, "mode": 0, "seg": 3}, grid_range={"hole": [0, L0 - 2]}, tiers=("thorough",), skip=heavy, timeout_s=3000)
+    if heavy:
+        I(entry, {"variant": 0, "sym": 2, "mode": 0, "seg": 1}, grid={"hole": [h["hole"] for h in heavy]}, tiers=("thorough",), timeout_s=3000)
+    I(entry, {"variant": 1, "sym": 2, "mode": 0, "seg": 1}, grid_range={"hole": [0, len(T[1]) - 2]}, tiers=("thorough",), timeout_s=3000)
+    I(entry, {"variant": 0, "sym": 2, "mode": 1, "seg": 1}, grid_range={"hole": [0, L0]}, tiers=("thorough",), timeout_s=3000)
+    I(entry, {"variant": 0, "sym": 3, "mode": 0, "seg": 1}, grid_range={"hole": [0, 7]}, tiers=("thorough",), timeout_s=3000)
     # every truncation of every variant, delivered byte by byte
     for v in range(4):
         I(entry, {"variant": v, "sym": 0, "mode": 0, "seg": 2}, grid_range={"trunc": [1, len(T[v]) + 1]})
@@ -52,7 +54,7 @@ spec = {
  "stubs": [{"target": "(net/http.Header).Write", "with": "github.com/bokysan/socketace/v2/internal/socketace.vp06HeaderWrite"}],
  "instances": inst,
  "bounds": {
-  "inputs": "four byte-string templates per role (well-formed pair; several versions / odd case / reordered headers; unsupported version or refusal; bare-LF lines with continuation and pipelined trailing bytes) with 1 (every offset), 2 (every offset of the first message quick / everywhere thorough) or 3 (first 30 offsets, thorough) arbitrary bytes replacing or inserted; every truncation of every template; fully arbitrary inputs of 0..3 (4 thorough) bytes; first lines of 4070..4200 extra bytes with an arbitrary byte at the 4096-byte buffer edge",
+  "inputs": "four byte-string templates per role (well-formed pair; several versions / odd case / reordered headers; unsupported version or refusal; bare-LF lines with continuation and pipelined trailing bytes) with 1 (every offset), 2 (every offset of the first message quick / everywhere thorough) or 3 (first 8 offsets, thorough) arbitrary bytes replacing or inserted; every truncation of every template; fully arbitrary inputs of 0..3 (4 thorough) bytes; first lines of 4070..4200 extra bytes with an arbitrary byte at the 4096-byte buffer edge",
   "segmentation": "single chunk compared with: one cut point within 3 bytes of the arbitrary bytes; every single cut point of each unmodified template; byte-by-byte delivery (truncations, arbitrary inputs); thorough: every pair of cut points",
   "roles": "server (NewServerConnection, no certificate manager, plain carrier) and client (NewClientConnection on a carrier already reported secure, so StartTLS is not attempted - C04 covers it)"
  },
